@@ -118,7 +118,8 @@ def to_sub_tree(swc_like: SWCLike, sub: Topology) -> tuple[Tree, dict[int, int]]
 
     n_nodes = new_id.shape[0]
     ndata = {k: swc_like.get_ndata(k)[id_map_arr].copy() for k in swc_like.keys()}
-    ndata.update(id=new_id, pid=new_pid)
+    ndata[swc_like.names.id] = new_id
+    ndata[swc_like.names.pid] = new_pid
 
     subtree = Tree(n_nodes, **ndata, source=swc_like.source, names=swc_like.names)
 
@@ -281,5 +282,6 @@ def _sort_tree(tree: Tree) -> Tree:
     """Sort the indices of neuron tree inplace."""
     (new_ids, new_pids), id_map = sort_nodes_impl((tree.id(), tree.pid()))
     tree.ndata = {k: tree.ndata[k][id_map] for k in tree.ndata}
-    tree.ndata.update(id=new_ids, pid=new_pids)
+    tree.ndata[tree.names.id] = new_ids
+    tree.ndata[tree.names.pid] = new_pids
     return tree
